@@ -52,7 +52,7 @@ static rc::Gen<DCase> genD() {
         c.g = *rc::gen::oneOf(rc::gen::just(0.0), uniform(-5, 5));       // in units of V per unit time
         c.sg = *rc::gen::oneOf(rc::gen::just(0.0), uniform(0.0, 1.0));
         c.vdiv_f = *rc::gen::oneOf(rc::gen::just(1e300), uniform(0.5, 2.0), rc::gen::just(1.0));
-        c.svdiv_f = *rc::gen::oneOf(rc::gen::just(0.0), uniform(0.0, 0.2));
+        c.svdiv_f = *rc::gen::oneOf(rc::gen::just(0.0), uniform(0.0, 0.2), uniform(0.3, 1.0));  // 3 sigma > mean: negative division volumes are drawn
         c.vmin_f = *rc::gen::element(0.0, 0.1, 0.9, 1.0, 1.5);
         c.vt_f = *rc::gen::element(1.0, 0.5, 0.99, 1.2, 3.0);
         c.dt = *loguniform(1e-5, 1e-1);
@@ -159,6 +159,7 @@ static std::string runD(const DCase& k, vf::Ctx& ctx) {
     if (clamp_v) ctx.count("target_volume_clamped_at_min");
     if (clamp_p) ctx.count("pressure_capped");
     if (ready) ctx.count("ready_to_divide");
+    if (vdiv < 0) ctx.count("negative_division_volume_drawn");
     if (g < 0) ctx.count("negative_growth");
     if (clamp_v || clamp_p || ready) {
         ctx.nontriv();
